@@ -136,7 +136,7 @@ fn emit_log(tok: &str) {
         0 => tracing::info!("{tok}"),
         1 => tracing::info!("first line\nsecond line {tok}"),
         2 => tracing::info!("dunder __ inside __{tok}"),
-        // the collector's own "no scenario" marker inside a user message (was lost before cfc4b1b+1)
+        // the collector's own "no scenario" marker inside a user message (such messages were lost before fix 5b3df26)
         _ => tracing::info!("marker __unknown inside {tok}"),
     }
 }
